@@ -345,6 +345,12 @@ def sdss_objid(run, camcol, field, objnum, rerun=301, skyversion=None,
         skyversion = default_skyversion()
     if firstfield is None:
         firstfield = 0
+    for scalar in (run, camcol, field, objnum, rerun, skyversion, firstfield):
+        #
+        # Whatever does not fit a 64-bit integer is certainly out of bounds.
+        #
+        if isinstance(scalar, int) and not -2**63 <= scalar < 2**63:
+            raise ValueError("Integer input out of bounds: {0:d}!".format(scalar))
     if isinstance(run, int):
         run = np.array([run], dtype=np.int64)
     if isinstance(camcol, int):
